@@ -320,7 +320,7 @@ func c03Scenarios(thorough bool) []*explore.Scenario {
 func init() {
 	register(&Prop{ID: "C03", Level: "exploration", Variant: "A", Scenarios: c03Scenarios,
 		Run: func(c *explore.Check, thorough bool) {
-			c.Rule = "every predefined parrot x 7 server-name lengths (1, 11, 200, 250..253) x 12 (200) connections with per-connection scripted entropy x 3 ways of reaching the first flight {BuildHandshakeState then Handshake, Handshake alone, BuildHandshakeStateWithoutSession then BuildHandshakeState then Handshake}: legacy_version, cipher suites, compression and every extension (sequence for non-shuffling parrots; multiset plus fixed positions of GREASE/padding/pre_shared_key for shuffling ones) compared with an independent reference encoding (refNorm, written from the RFCs) of a second UTLSIdToSpec call, per-connection material masked. distinct = (id, sni length, observed extension order)"
+			c.Rule = "every predefined parrot x 7 server-name lengths (1, 11, 200, 250..253) x 12 (200) connections with per-connection scripted entropy x 3 ways of reaching the first flight {BuildHandshakeState then Handshake, Handshake alone, BuildHandshakeStateWithoutSession then BuildHandshakeState then Handshake} x version bounds left in the application Config {none, 1.0-1.1, 1.0-1.0, max 1.1, min 1.3}: legacy_version, cipher suites, compression and every extension (sequence for non-shuffling parrots; multiset plus fixed positions of GREASE/padding/pre_shared_key for shuffling ones) compared with an independent reference encoding (refNorm, written from the RFCs) of a second UTLSIdToSpec call, per-connection material masked. distinct = (id, sni length, observed extension order)"
 			c.Assumptions = []string{"the Chrome shuffle is driven by its own crypto/rand seed: permutations are observed over the enumerated connections, not enumerated decision by decision", "padding presence is taken from the wire (its policy is C05's subject)"}
 			runAll(c, c03Scenarios(thorough), 0)
 			c.Gate(c.Total.Counters["shuffler_hellos"] > 20, "non-vacuity: %d shuffler hellos", c.Total.Counters["shuffler_hellos"])
